@@ -181,23 +181,54 @@ def molecular_terms(const, h, eri):
 
 
 def integrals_from_case(c):
-    """case {"M", "const", "h": upper triangle rows, "L": list of upper-triangle symmetric factors} -> const, h, eri (chemist).
-    eri = sum_k L_k (x) L_k has the full 8-fold symmetry of real orbitals."""
+    """case -> const, h, eri (chemist notation eri[p,q,r,s] = (pq|rs)).
+
+    Keys: "M", "const", "h" (upper triangle, real parts), "L" (list of upper-triangle factors, real parts); optional
+    "hi" / "Li" (strict upper triangle, imaginary parts: the matrices are then complex Hermitian), "Ls" (sign +-1 per factor)
+    and "X" (sparse extra two-body entries [[p,q,r,s], re, im]).
+      eri = sum_k s_k L_k (x) L_k  +  sum_X sym4(G)
+    where sym4(G)[pqrs] = G[pqrs] + G[rspq] + conj(G[qpsr]) + conj(G[srqp]).  Real symmetric L_k without "X" give the full 8-fold
+    symmetry of real orbitals; Hermitian L_k and the X entries only have the symmetries forced by particle exchange and
+    Hermiticity, (pq|rs) = (rs|pq) = conj((qp|sr)), but not (pq|rs) = (qp|rs)."""
     M = c["M"]
 
-    def sym(tri):
-        A = np.zeros((M, M))
+    def herm(tri, tri_im=None):
+        A = np.zeros((M, M), dtype=complex)
         it = iter(tri)
         for i in range(M):
             for j in range(i, M):
                 A[i, j] = A[j, i] = next(it)
+        if tri_im is not None:
+            it = iter(tri_im)
+            for i in range(M):
+                for j in range(i + 1, M):
+                    v = next(it)
+                    A[i, j] += 1j * v
+                    A[j, i] -= 1j * v
         return A
-    h = sym(c["h"])
-    eri = np.zeros((M, M, M, M))
-    for tri in c["L"]:
-        L = sym(tri)
-        eri += np.einsum("pq,rs->pqrs", L, L)
+    h = herm(c["h"], c.get("hi"))
+    eri = np.zeros((M, M, M, M), dtype=complex)
+    Li = c.get("Li") or [None] * len(c["L"])
+    Ls = c.get("Ls") or [1.0] * len(c["L"])
+    for tri, tri_im, sgn in zip(c["L"], Li, Ls):
+        L = herm(tri, tri_im)
+        eri += sgn * np.einsum("pq,rs->pqrs", L, L)
+    for (p, q, r, s), re, im in c.get("X") or []:
+        v = complex(re, im)
+        eri[p, q, r, s] += v
+        eri[r, s, p, q] += v
+        eri[q, p, s, r] += np.conj(v)
+        eri[s, r, q, p] += np.conj(v)
+    if not (np.iscomplexobj(h) and (np.any(h.imag) or np.any(eri.imag))):
+        h, eri = h.real.copy(), eri.real.copy()
     return c["const"], h, eri
+
+
+def eri_symmetry(eri):
+    """(hermitian+exchange symmetric?, additionally (pq|rs) == (qp|rs)?) -- used for self-tests and labels."""
+    four = np.allclose(eri, eri.transpose(2, 3, 0, 1)) and np.allclose(eri, eri.transpose(1, 0, 3, 2).conj())
+    eight = np.allclose(eri, eri.transpose(1, 0, 2, 3))
+    return four, eight
 
 
 # ------------------------------------------------------------------------------------------------ self test
@@ -226,4 +257,15 @@ def selftest():
     E = sub_matrix(t, 2, [3])[0, 0]
     assert abs(E - (0.5 - 2.0 + 0.25)) < 1e-14
     assert seniority_zero(2) == [0, 3, 12, 15]
+    # integral families: 8-fold (real symmetric factors), 4-fold (Hermitian factors / sparse extras); the Hamiltonian is Hermitian
+    c8 = {"M": 2, "const": 0.5, "h": [1.0, 0.25, -1.0], "L": [[0.5, 0.25, -0.5]]}
+    c4 = dict(c8, hi=[0.5], Li=[[0.75]], X=[[[0, 1, 0, 1], 0.25, 0.5]])
+    c4r = dict(c8, X=[[[0, 1, 0, 1], 0.25, 0.0], [[0, 0, 0, 1], 0.5, 0.0]])
+    assert eri_symmetry(integrals_from_case(c8)[2]) == (True, True)
+    for c in (c4, c4r):
+        k, hh, g = integrals_from_case(c)
+        assert eri_symmetry(g) == (True, False)
+        Hm = F.fermion_matrix(molecular_terms(k, hh, g), 4)
+        assert np.allclose(Hm, Hm.conj().T)
+    assert not np.iscomplexobj(integrals_from_case(c4r)[2]) and np.iscomplexobj(integrals_from_case(c4)[2])
     assert parity_sector(2, 0, 0) == [0] and parity_sector(2, 1, 1) == [2]
